@@ -569,3 +569,26 @@ Proof.
     rewrite Hs in Hl. exists l. apply in_or_app. now left.
   - destruct (IH st' Hd H1) as (l & Hl). exists l. apply in_or_app. now right.
 Qed.
+
+(** * The reader of a column across row groups (Column.Pages) *)
+
+Theorem column_path_never_unverified enc dict p noindex k target :
+  column_path_check loader_check enc dict p noindex k target <> Some Unverified.
+Proof.
+  unfold column_path_check.
+  destruct (column_chunk_events p noindex k dict) as [evs|]; [|discriminate].
+  destruct (filter _ _) as [|[k' l] r]; [discriminate|].
+  cbn. intro H. injection H as H. now apply (loader_check_verified l).
+Qed.
+
+(* the page that is read is checked: a data page of the row group the reader
+   reads, and the dictionary page whenever the data page is dictionary-encoded *)
+Theorem column_path_reads_the_page enc dict p noindex k :
+  k <> DictPage -> p <> ColSeek RgBefore ->
+  column_path_check loader_check enc dict p noindex k k <> None /\
+  (dict = true -> column_path_check loader_check enc dict p noindex k DictPage <> None).
+Proof.
+  intros Hk Hp.
+  destruct p as [|[]]; try congruence;
+    destruct k; try congruence; destruct enc, dict, noindex; vm_compute; split; congruence.
+Qed.
